@@ -72,6 +72,42 @@ def loc_features(mod_tree, loc):
     last = path[-1]
     feats["last_name_repeated"] = (names + argnames).count(last) > 1
     feats["module_has_function"] = any(isinstance(n, ast.FunctionDef) for n in mod_tree.body)
+    # aliasing: annotate_ancestry records only (parent simple name, own name [, arg]); does another
+    # node elsewhere in the module carry the same truncated pair as the target?
+    tail = tuple(path[-3:]) if loc["kind"].endswith(("arg", "kwarg")) else tuple(path[-2:])
+    target_node = resolve(path, mod_tree)[0]
+    alias, alias_before = 0, False
+
+    def walk(node, names):
+        nonlocal alias, alias_before
+        for ch in ast.iter_child_nodes(node):
+            nm = getattr(ch, "name", None)
+            own = None
+            if isinstance(ch, (ast.ClassDef, ast.FunctionDef)):
+                own = names + [nm]
+            elif isinstance(ch, ast.AnnAssign) and isinstance(ch.target, ast.Name):
+                own = names + [ch.target.id]
+            elif isinstance(ch, ast.Assign) and ch.targets and isinstance(ch.targets[0], ast.Name):
+                own = names + [ch.targets[0].id]
+            if own is not None and ch is not target_node and tuple(own[-len(tail):]) == tail and len(own) >= len(tail) and own != path:
+                alias += 1
+                if getattr(ch, "lineno", 10 ** 9) < getattr(target_node, "lineno", 0):
+                    alias_before = True
+            if isinstance(ch, ast.FunctionDef):
+                for a in ch.args.args + ch.args.kwonlyargs:
+                    ap = (names + [nm, a.arg])
+                    if a is not target_node and tuple(ap[-len(tail):]) == tail and ap != path:
+                        alias += 1
+                        if ch.lineno < getattr(target_node, "lineno", 0):
+                            alias_before = True
+            if isinstance(ch, ast.ClassDef):
+                walk(ch, names + [nm])
+
+    if len(path) >= 2 and target_node is not None:
+        walk(mod_tree, [])
+    feats["same_name_as_parent"] = len(path) >= 2 and path[-1] == path[-2]
+    feats["aliased_elsewhere"] = alias > 0
+    feats["alias_before_target"] = alias_before
     return feats
 
 
